@@ -216,3 +216,13 @@ def import_rows(chk, cfg, owner, modname, rules):
             for _ in range(max(0, cnt - bad)):
                 chk.ob("via=%s/%s" % (owner, r), owner, True)
     chk.count("imported rows from %s[%s]" % (owner, cfg.name), n)
+
+
+CODEC_CORE = ("T-rt-bits", "T-unsafe-bits", "T-inj-bits", "T-width", "T-accept-bits")
+
+
+def import_codec_core(chk, cfg):
+    """Every property that speaks of "the symbol at position i" or "the code of a symbol" rests on the codec's own tables being
+    consistent: to_bits injective and within BITS, try_from_bits its inverse, unsafe_from_bits agreeing with try_from_bits.  Those
+    rows are C05's; they are evaluated here too, so that a decoder changed for one codec is reported under the property it breaks."""
+    import_rows(chk, cfg, "C05", "props.C05", CODEC_CORE)
